@@ -2,6 +2,7 @@ import TsVerif.Common.Tree
 import TsVerif.C03.Driver
 import TsVerif.C03.Glr
 import TsVerif.C03.Sound
+import TsVerif.C03.Relate
 import TsVerif.C03.Lang
 import TsVerif.C03.Pratt
 /-!
